@@ -131,6 +131,9 @@ class Run:
         t0 = time.time()
         rc, out, err, secs = sh([exe, 'tier=' + self.tier, 'seed=%d' % self.seed], timeout=check.timeout or 900, mem_kb=None)
         if 'ERROR: AddressSanitizer' in (out + err) or 'runtime error:' in (out + err):
+            fi = re.search(r'FAILING INPUT: ([^\n]*)', out + err)
+            if fi:
+                out += '\nFAILCASE %s\n' % fi.group(1)[:600]
             out += '\nCLAUSE sanitizer FAIL 1 undefined behaviour / memory error reported by the sanitizers: %s\nFAILCASE %s\n' % (
                 re.sub(r'\s+', ' ', (re.search(r'[^\n]*(runtime error|AddressSanitizer)[^\n]*', out + err) or [''])[0])[:200], re.sub(r'\s+', ' ', (re.search(r'[^\n]*(runtime error|AddressSanitizer)[^\n]*', out + err) or [''])[0])[:200])
             if 'NATIVE cases=' not in out:
@@ -168,7 +171,9 @@ class Run:
         rc, out, err, _ = sh([exe] + args, timeout=300, mem_kb=None)
         txt = (out + err).strip()
         if rc == 1 or 'ERROR: AddressSanitizer' in txt or 'runtime error:' in txt:
-            return True, txt[-1500:]
+            head = [m.group(0) for m in re.finditer(r'^(FAILING INPUT:|REPRODUCED|.*ERROR: AddressSanitizer|.*runtime error:|SUMMARY:)[^\n]*', txt, re.M)]
+            head = sorted((h[:400] for h in head), key=lambda h: not h.startswith('FAILING INPUT'))
+            return True, ('\n'.join(head)[:1500] if head else txt[-1500:])
         if rc == 0:
             return False, txt[-800:]
         return None, 'replay driver exit %s: %s' % (rc, txt[-800:])
